@@ -508,9 +508,40 @@ pub fn nullable_chain_cfg(rng: &mut Rng) -> (Cfg, Vec<bool>) {
 /// formatting and sorting of numbered names go wrong (9/10/11, 16, 32, 64, 100, 128, 256 ...):
 /// many terminals, many nonterminals, many rules, many states.
 pub fn big_cfg(rng: &mut Rng, max_states_hint: usize) -> (Cfg, Vec<bool>) {
+    let v = rng.below(7);
+    big_cfg_variant(rng, max_states_hint, v)
+}
+
+pub fn big_cfg_variant(rng: &mut Rng, max_states_hint: usize, variant: usize) -> (Cfg, Vec<bool>) {
     const SIZES: &[usize] = &[9, 10, 11, 10, 15, 16, 17, 16, 31, 32, 33, 32, 63, 64, 65, 64, 99, 100, 101, 120];
     let mut n = *rng.pick(SIZES);
-    match rng.below(6) {
+    match variant {
+        6 => {
+            // very many terminals (column indices beyond 2^7 and 2^8) with tiny lookahead sets, so that
+            // kiki's construction stays fast: the terminals stand in a row that is cut into 1-4
+            // productions, followed by a small left-recursive list over the *last* terminals
+            let n = *rng.pick(&[100usize, 126, 127, 128, 129, 130, 200, 254, 255, 256, 257, 258, 300, 316]);
+            let n = n.min(crate::lr::MAX_T - 1);
+            let cuts = rng.range(1, 4);
+            let mut rules = vec![];
+            // 0: S, 1: E, 2..2+cuts: row pieces
+            let mut s_rhs: Vec<Sym> = (0..cuts).map(|k| Sym::N(2 + k)).collect();
+            s_rhs.push(Sym::N(1));
+            rules.push(Rule { lhs: 0, rhs: s_rhs });
+            if rng.chance(0.5) {
+                rules.push(Rule { lhs: 0, rhs: vec![] });
+            }
+            let (a, b, c) = (n - 1, n - 2, rng.range(n / 2, n - 1));
+            rules.push(Rule { lhs: 1, rhs: vec![Sym::N(1), Sym::T(a), Sym::T(b)] });
+            rules.push(Rule { lhs: 1, rhs: vec![Sym::T(c)] });
+            let mut at = 0;
+            for k in 0..cuts {
+                let end = if k + 1 == cuts { n } else { (at + 1 + rng.below(n - at - (cuts - k))).min(n - (cuts - k - 1)) };
+                rules.push(Rule { lhs: 2 + k, rhs: (at..end).map(Sym::T).collect() });
+                at = end;
+            }
+            (Cfg { nn: 2 + cuts, nt: n, rules, start: 0 }, (0..2 + cuts).map(|_| rng.chance(0.3)).collect())
+        }
         4 => {
             // one production with a very long right-hand side (16..70 symbols), inside a small list grammar
             let len = *rng.pick(&[16usize, 17, 31, 32, 33, 64, 65, 100, 127, 128, 129, 255, 256, 257, 258, 300]);
@@ -758,7 +789,7 @@ impl Source {
             Source::SharedContexts => "shared-contexts",
             Source::Nested => "nested-recursion",
             Source::NullableChain => "nullable-chain",
-            Source::Big => "big (sizes across 10/16/32/64/100/128)",
+            Source::Big => "big (sizes across 10/16/32/64/100/128/256/316)",
             Source::Enumerated => "enumerated",
         }
     }
